@@ -86,7 +86,7 @@ func init() {
 		Level: "exploration",
 		Rule: "histories of 3–12 definitions building a prototype forest (object literals, p.bear({…}), p.bear, o.bro({…})) with properties from a small alphabet incl. private names — values, functions, methods and _missing at every depth, shadowing patterns — interleaved with up to 40 queries: o.name, o.name(arg), o['name], which, proto, ancestors, kindOf?, keys, keys(private?: true); every object has a unique own uid so owners and receivers are identified without relying on structural equality. " +
 			"Oracle: the forest model. distinct = distinct (query kind, resolution class ∈ {own, inherited, shadowed, absent→_missing, absent→NoPropErr, built-in owner}, property kind, depth) tuples judged; non-trivial = every judged query" +
-			" Added: bear/bro whose props come from an existing object, forests rooted at values of other types (arr, str, int, float, range), list-chain calls over 2–4 receivers with 0–6 arguments, scalar calls with 1–5 arguments.",
+			" Added: bear/bro whose props come from an existing object, forests rooted at values of other types (arr, str, int, float, range), list-chain calls over 2–4 receivers with 0–6 arguments, scalar calls with 1–5 arguments. Sixth round: forests rooted at nil; the same call spelled `&.` and `=.`.",
 		Assumptions: []string{
 			"model: first hit walking o, proto(o), … Obj, BaseObj; else the first _missing in the same order called with (receiver, name, args…); else NoPropErr; callable → invoked receiver-first, non-callable → returned as is; o['name] and which return nil for an absent name",
 			"kindOf? is only queried against objects with an own uid (and Obj/BaseObj), because its `==` is structural",
